@@ -244,6 +244,9 @@ PROPS["C10"] = {
         {"name": "C10_parse_encode", "status": "proved", "statement": "parse (to_string alg t m salt hash) returns exactly (alg, t, m, salt, hash, p=1, v=19): both algorithms, any non-empty salt/hash, t, m < 2^32"},
         {"name": "C10_reencode", "status": "proved", "statement": "from_string then to_string of an encoder-produced string returns the same string"},
         {"name": "C10_needs_rehash", "status": "proved", "statement": "needs_rehash = not (opslimit as u32 = t and (memlimit/1024) as u32 = m)"},
+        {"name": "C10_str_is_self_describing", "status": "proved", "statement": "forall password, 16 salt bytes, in-range costs: crypto_pwhash_str returns the string that encodes exactly Argon2id, t, m, the salt and the 32-byte Argon2id output computed (and parse recovers them)"},
+        {"name": "C10_str_verify_own", "status": "proved", "statement": "the string made by crypto_pwhash_str verifies with the password it was made from"},
+        {"name": "C10_str_verify_iff", "status": "proved", "statement": "crypto_pwhash_str_verify = Ok iff the 32-byte Argon2 output for the parsed algorithm / costs / salt equals the stored hash"},
         {"name": "C10_field_like_salt", "status": "proved", "statement": "non-vacuity + the finding: a salt whose base64 text begins 'argon2id' parses correctly (by vm_compute)"},
     ],
     "builds": ["stable"],
@@ -252,7 +255,7 @@ PROPS["C10"] = {
     "modelled": ["base64 0.21 GeneralPurpose(STANDARD, NO_PAD) and u32::from_str, str::split/starts_with/strip_prefix/contains are modelled from their documentation (Impl/PwhashStr.v) and tied by correspondence incl. malformed inputs",
                  "Argon2 itself is C09; str / str_verify are exercised against libsodium only"],
     "assumptions": ["libsodium as the reference verifier"],
-    "partial": "string layer proved; 'encodes the hash actually used' relies on C09 for the hash value",
+    "partial": "string layer and its composition with the Argon2 model proved; that the Argon2 model equals RFC 9106 is C09 (partial there)",
 }
 
 PROPS["C16"] = {
